@@ -146,3 +146,26 @@ Theorem numba_boxing_roundtrip_refuted :
     nb_roundtrip Z dt c = Ok (ACoo (mkCOO [44] [[0]; [1]] [5; 6] 0)) /\ nb_roundtrip Z dt c <> Ok (ACoo c).
 Proof. exact numba_boxing_roundtrip_refuted_proof. Qed.
 Print Assumptions numba_boxing_roundtrip_refuted.
+
+(* ---- `COO(coords, data, shape)` inside a Numba-compiled function (impl_COO), then boxing.
+   Full statement: forall c with zero fill, nb_construct zero dt c = Ok (ACoo c); FALSE for 0-d arrays and for any
+   coordinate dtype that is not 64 bits wide (the shape tuple cannot be stored into the record: TypeError at compile time). *)
+Theorem numba_construct_partial :
+  forall (V : Type) (zero : V) (dt : Z * bool) (c : coo V),
+    forallb (fun d => 0 <=? d) (c_shape c) = true -> canonicalb c = true -> c_fill c = zero ->
+    nb_construct_typed dt (c_shape c) = true ->
+    nb_construct V zero dt c = Ok (ACoo c).
+Proof. exact numba_construct_partial_proof. Qed.
+Print Assumptions numba_construct_partial.
+
+Example numba_construct_nonvacuous :
+  let c := mkCOO [2; 3] [[0; 1]; [1; 2]] [5; 6] 0 in
+  forallb (fun d => 0 <=? d) (c_shape c) = true /\ canonicalb c = true /\ nb_construct_typed (64, true) (c_shape c) = true.
+Proof. repeat split. Qed.
+
+Theorem numba_construct_refuted :
+  exists c : coo Z,
+    forallb (fun d => 0 <=? d) (c_shape c) = true /\ canonicalb c = true /\ c_fill c = 0 /\
+    nb_construct Z 0 (64, true) c = Raise TypeError.
+Proof. exact numba_construct_refuted_proof. Qed.
+Print Assumptions numba_construct_refuted.
